@@ -28,9 +28,22 @@ _fresh_counter = [0]
 FRESH_LOG = []          # every fresh constant, in creation order (used to lift constants created under a bound variable to functions of it)
 
 
+_fresh_scope = [""]
+_scope_uses = {}
+
+
+def set_fresh_scope(name):
+    """Names of fresh constants restart per verified function (scope = function name + how often it was verified in this process), so that the
+    text of a function's verification conditions - and with it the solver's behaviour - does not depend on what was verified before it."""
+    k = _scope_uses.get(name, 0)
+    _scope_uses[name] = k + 1
+    _fresh_scope[0] = f"{name}#{k}!" if k else f"{name}!"
+    _fresh_counter[0] = 0
+
+
 def fresh(prefix, sort):
     _fresh_counter[0] += 1
-    c = z3.Const(f"{prefix}!{_fresh_counter[0]}", sort)
+    c = z3.Const(f"{prefix}!{_fresh_scope[0]}{_fresh_counter[0]}", sort)
     FRESH_LOG.append(c)
     return c
 
